@@ -35,6 +35,7 @@ type c10Peer struct {
 	SpinCb   string `json:"spin_cb,omitempty"` // a plugin callback that busy-waits a little
 	SpinLong bool   `json:"spin_long,omitempty"`
 	SpinUs   int64  `json:"spin_us,omitempty"`
+	Hold0    bool   `json:"hold0,omitempty"` // the peer is configured with hold time 0 (no session timers)
 }
 
 type c10Conc struct {
@@ -56,6 +57,9 @@ func c10Spec(i int, p c10Peer) world.PeerSpec {
 	switch p.Park {
 	case "opensent-in", "openconfirm-in", "established-in", "writers-in":
 		sp.Passive = p.Passive
+	}
+	if p.Hold0 {
+		sp.Hold = 0
 	}
 	if p.SpinCb != "" {
 		us := int64(30)
@@ -625,7 +629,8 @@ func genC10(rt *rapid.T) c10Case {
 	c := c10Case{API: pick(rt, "api", "close", "close", "del", "del", "del-add", "liserr")}
 	n := rapid.IntRange(1, 3).Draw(rt, "npeers")
 	for i := 0; i < n; i++ {
-		p := c10Peer{Park: c10Parks[rapid.IntRange(0, len(c10Parks)-1).Draw(rt, "park")], Passive: rapid.Bool().Draw(rt, "passive")}
+		p := c10Peer{Park: c10Parks[rapid.IntRange(0, len(c10Parks)-1).Draw(rt, "park")], Passive: rapid.Bool().Draw(rt, "passive"),
+			Hold0: rapid.IntRange(0, 3).Draw(rt, "hold0") == 0}
 		if rapid.IntRange(0, 5).Draw(rt, "spin") == 0 {
 			p.SpinCb = pick(rt, "spincb", "caps", "open", "est", "upd", "close")
 			p.SpinLong = rapid.Bool().Draw(rt, "spinlong")
